@@ -132,6 +132,9 @@ def run(args, drv):
         returned = False
         try:
             ev = Evolver()
+            # everything from here on is the run proper: preparation must
+            # not change the database
+            drv.emit('mark', what='prepare_start')
             ev.queue_evolve_all_apps()
             rec['required'] = bool(ev.get_evolution_required())
             if only_if_required and not rec['required']:
